@@ -1256,6 +1256,14 @@ def rule_semtok_pairing(prog):
             same = [x for x in assigns if place(x[0]["l"]) == prev]
             ok = len(same) == 1 and len(assigns) == 1
             loc_ = c.loc(assigns[0][0]["sp"])
+            # a function that is handed the base (`&mut Position`) advances *that* one, not a copy of it
+            threaded = ["%s#%s" % (p_["name"], p_["id"]) for p_ in b["params"]
+                        if p_.get("k") == "Binding" and c.tstr(p_["bt"]).replace(" ", "") == "&mutlsp_types::Position"]
+            if ok and threaded and prev not in threaded:
+                out.add(b["d"], "previous position advances exactly when a semantic token is emitted, to that token's start", False, loc_,
+                        "the function receives the running delta base as `&mut Position` but advances `%s`, a copy: the caller's base stays "
+                        "where it was and every token behind this region is encoded relative to a stale position" % (prev or "?").split("#")[0])
+                continue
             if ok:
                 n, parents = assigns[0]
                 inner = parents[[i_ for i_, p_ in enumerate(parents) if p_ is scope][0] + 1:]
@@ -1505,7 +1513,24 @@ def rule_fmt_pure(prog):
                 continue
             n_rng += 1
             r = hir.strip_ref(n["args"][0])
+            # (the range may be bound to a local first, or come out of a local helper)
+            rdefs = {l_["pat"]["id"]: l_["init"] for l_ in hir.nodes(rb["body"], "Let") if l_["pat"].get("k") == "Binding" and l_.get("init") is not None}
+            for _ in range(4):
+                pl_ = hir.path_local(hir.strip(r))
+                if pl_ and pl_["id"] in rdefs:
+                    r = hir.strip_ref(rdefs[pl_["id"]])
+                    continue
+                if r.get("k") in ("Call", "MethodCall"):
+                    hb_ = hir.local_callee_body(prog, r)
+                    if hb_ is not None and hb_["_crate"] is c and hb_["p"].startswith("lsp4spl::features::formatting"):
+                        hbody_ = hir.strip(hb_["body"])
+                        r = hir.strip_ref(hbody_["b"]["expr"]) if hbody_.get("k") == "BlockExpr" and hbody_["b"].get("expr") is not None else hir.strip_ref(hbody_)
+                        continue
+                break
             if r.get("k") != "Struct":
+                # a range that is not written as `0..<text>.len()`: taken from somewhere else (the tokens, the AST, ..)
+                if r.get("k") in ("Call", "MethodCall", "Field"):
+                    ok = False
                 continue
             fl = {x["name"]: x["e"] for x in r["fields"]}
             en = hir.strip(fl.get("end", {}))
